@@ -18,6 +18,7 @@ def sig(case, d):
 
 
 def run(ctx):
+    nf.model_unit_check(ctx)
     n = 60 if ctx.quick else 1500
     nf.check_cases(ctx, mode="c10", n=n, module=MODULE, cfg=CFG, diag_cfg=DIAG, chunks=4,
                    timeout=900 if ctx.quick else 3000, nontrivial_fn=nontrivial, sig_fn=sig)
